@@ -5,3 +5,4 @@ pub mod dumper;
 pub mod helpers;
 pub mod layout;
 pub mod md;
+pub mod regs;
